@@ -542,7 +542,13 @@ class Parser:
 
     def parse_integer_literal(self, stream: TokenStream) -> FilterExpression:
         # Convert to float first to handle scientific notation.
-        return IntegerLiteral(value=int(float(stream.current.value)))
+        try:
+            return IntegerLiteral(value=int(float(stream.current.value)))
+        except OverflowError as err:
+            raise JSONPathSyntaxError(
+                f"number literal out of range {stream.current.value!r}",
+                token=stream.current,
+            ) from err
 
     def parse_float_literal(self, stream: TokenStream) -> FilterExpression:
         return FloatLiteral(value=float(stream.current.value))
